@@ -145,6 +145,7 @@ type Sched struct {
 	exits     map[string]int
 	Crash     *CrashPlan
 	OnCrash   func(node string)
+	OnSignal  func(node string)
 	crashCnt  map[string]int
 	CrashSeen map[string]int // crash points seen per "node/kind"
 
@@ -170,7 +171,10 @@ type CrashPlan struct {
 	Kind  string `json:"kind"`
 	N     int    `json:"n"`
 	Torn  int    `json:"torn,omitempty"`
-	Fired bool   `json:"-"`
+	// Signal: instead of dying at that point the node receives an interrupt signal
+	// there (OnSignal runs; the node goes on until its handler exits the process).
+	Signal bool `json:"signal,omitempty"`
+	Fired  bool `json:"-"`
 	Site  string `json:"-"`
 }
 
@@ -712,7 +716,14 @@ func (s *Sched) Run(stop func() bool, deadline time.Time, idleCut time.Duration)
 						if s.crashCnt[cp.Node] == cp.N {
 							cp.Fired = true
 							cp.Site = p.site
-							if cp.Torn > 0 && ck == "fs" {
+							if cp.Signal {
+								s.record("SIGNAL", p.name, p.site, n)
+								if cb := s.OnSignal; cb != nil {
+									s.mu.Unlock()
+									cb(cp.Node)
+									s.mu.Lock()
+								}
+							} else if cp.Torn > 0 && ck == "fs" {
 								// let the operation run; the fs layer tears it and crashes
 								s.FS.tornFor = p.name
 								s.FS.tornPermille = cp.Torn
